@@ -82,7 +82,7 @@ PROPS = {
                           "Verif.Rr.preTrivial", "Verif.Lfu.preTrivial", "Verif.Lfuda.preTrivial", "Verif.Tlru.preTrivial",
                           "Verif.Utlru.preTrivial", "Verif.C18_utmap"],
                 explain="Theorem Core.C18_preTrivial (eight caches): a range call leaves the model in exactly the state of its single calls in order and returns their aggregate; ut_map/ut_set: C18_utmap for non-empty ranges and positive TTL. Checked directly on the implementation by twin instances (range vs singles, all later calls compared)."),
-    "C19": dict(kinds=ALL, modes=["c19"], judge="TWIN", quick=150, thorough=5000,
+    "C19": dict(kinds=ALL, modes=["c19"], judge="TWIN", quick=300, thorough=8000,
                 theorems=["Verif.C19_lru", "Verif.C19_mru", "Verif.C19_fifo", "Verif.C19_rr", "Verif.C19_lfu", "Verif.C19_lfuda",
                           "Verif.C19_tlru", "Verif.C19_utlru", "Verif.C19_utmap"],
                 explain="Theorems C19_<container>: a call that by its own result had no effect (peek lookup, miss, rejected insert, erase of an absent key) leaves the model state exactly as it was (six non-TTL caches), or removes only entries that had already expired (tlru/utlru), or does exactly what the per-call purge does (ut_map/ut_set). PARTIAL for the four TTL containers: that two states differing only by already-expired entries answer every later call alike except size()/erase/update-only results is checked on the implementation by the twin runs, not proved. Checked directly on the implementation by twin instances (H vs H with no-effect calls spliced in)."),
